@@ -49,3 +49,4 @@ for pid, title in (("C02", "INFEASIBLE only with an exact Farkas certificate"),
                    ("C04", "the answer is a function of the LP only")):
     PLANS[pid] = dict(PLANS["C01"])
     PLANS[pid]["title"] = title
+NOT_YET = {}
